@@ -2,6 +2,7 @@
 package c06
 
 import (
+	"perun.network/go-perun/wire"
 	"context"
 	"errors"
 	"math/big"
@@ -342,4 +343,97 @@ func VerifC06EarlyUpdate() {
 	} else {
 		rt.Assert("c06.early.rejected-stays-rejected", acc == 0 && tx.State.Version == 0 && tx.State.Equal(init) == nil)
 	}
+}
+
+// VerifC06TwoChannels: sequential proposals by either party on either of two
+// channels of the same client pair (which may be at the same version), with
+// arbitrary decisions; optionally the responder's own context ends while its
+// accept message is on the way. Each run must leave both channels on both
+// sides in the reference state.
+func VerifC06TwoChannels() {
+	n := rt.Bound("n", 2)
+	gen.K, gen.Exact = 1, true
+	p := cw.NewPair()
+	var cps [2]*chanPair
+	var refs [2]*channel.State
+	v0 := uint64(rt.NondetU8())
+	for c := 0; c < 2; c++ {
+		v := v0
+		if c == 1 && rt.NondetBool() {
+			v = uint64(rt.NondetU8())
+		}
+		_, st, chs := p.Open(int64(7+c), func(id channel.ID) *channel.State {
+			return &channel.State{ID: id, Version: v, App: channel.NoApp(), Data: channel.NoData(),
+				Allocation: channel.Allocation{Assets: gen.Assets(1), Backends: gen.Backends(1), Balances: channel.Balances{gen.Bals(2)}}}
+		})
+		cps[c] = &chanPair{init: st, ch: chs}
+		refs[c] = st.Clone()
+	}
+	decisions := make([]bool, n)
+	cancelAtSend := make([]bool, n)
+	for k := range decisions {
+		decisions[k] = rt.NondetBool()
+		cancelAtSend[k] = rt.Bound("cancel", 1) == 1 && rt.NondetBool()
+	}
+	handled := 0
+	var cancelCur func()
+	cancelNow := false
+	p.Net.Drop = func(e *wire.Envelope) bool {
+		if _, ok := e.Msg.(*client.ChannelUpdateAccMsg); ok && cancelNow && cancelCur != nil {
+			cancelCur() // the responder's context ends while its accept message is on the way
+		}
+		return false
+	}
+	uh := client.UpdateHandlerFunc(func(_ *channel.State, _ client.ChannelUpdate, r *client.UpdateResponder) {
+		k := handled
+		handled++
+		ctx, cancel := context.WithCancel(context.Background())
+		defer cancel()
+		if k < n && decisions[k] {
+			cancelCur, cancelNow = cancel, cancelAtSend[k]
+			_ = r.Accept(ctx)
+			cancelNow = false
+		} else {
+			_ = r.Reject(ctx, "no")
+		}
+	})
+	for i := 0; i < 2; i++ {
+		go p.C[i].Handle(noProposals{}, uh)
+	}
+	for step := 0; step < n; step++ {
+		c, i := rt.Choice(2), rt.Choice(2)
+		d := gen.Bal()
+		rt.Assume(refs[c].Balances[0][i].Cmp(d) >= 0)
+		k := handled
+		ctx, cancel := context.WithTimeout(context.Background(), 5000000000)
+		var proposed *channel.State
+		err := cps[c].ch[i].Update(ctx, func(s *channel.State) {
+			s.Balances[0][i] = new(big.Int).Sub(s.Balances[0][i], d)
+			s.Balances[0][1-i] = new(big.Int).Add(s.Balances[0][1-i], d)
+			proposed = s.Clone()
+			proposed.Version++
+		})
+		cancel()
+		rt.Quiesce()
+		rt.Assert("c06.two.no-timeout", !isTimeout(err))
+		rt.Assert("c06.two.handled-once", handled == k+1)
+		accepted := k < n && decisions[k]
+		if err == nil {
+			rt.Reach("c06.two.success")
+			rt.Assert("c06.two.success-only-if-accepted", accepted)
+			refs[c] = proposed
+		} else {
+			rt.Reach("c06.two.refused")
+			rt.Assert("c06.two.refusal-is-rejection", isRejection(err) && !accepted)
+		}
+		for cc := 0; cc < 2; cc++ {
+			for q := 0; q < 2; q++ {
+				tx, ph, free := view(cps[cc].ch[q])
+				rt.Assert("c06.two.same-state", free && tx.State.Version == refs[cc].Version && tx.State.Equal(refs[cc]) == nil)
+				rt.Assert("c06.two.fully-signed", fullySigned(p, cps[cc].ch[q]))
+				rt.Assert("c06.two.ready", free && ph == channel.Acting)
+			}
+		}
+	}
+	rt.Reach("c06.two")
 }
